@@ -270,10 +270,16 @@ Definition book_step (b : book) (x : dstep * obs) : book :=
       let alloc := if bk_parked b then bk_dealt b else bk_dealt b + 1 in
       match st with
       | RSParked => {| bk_dealt := bk_dealt b + 1; bk_unres := bk_unres b; bk_parked := true; bk_ok := bk_ok b |}
-      | RSSuccess | RSFailedPut =>
+      | RSSuccess =>
           {| bk_dealt := alloc; bk_unres := pop_head (bk_unres b); bk_parked := false; bk_ok := bk_ok b |}
+      | RSFailedPut =>
+          (* the node is dropped only when the rewrite lost a compare (EnvOk with a failed condition, or an engine abort);
+             after a definite failure of another kind it stays at the head *)
+          let keep := match d with DRetry EnvError _ | DRetryFinish EnvError => true | _ => false end in
+          {| bk_dealt := alloc; bk_unres := (if keep then bk_unres b else pop_head (bk_unres b)); bk_parked := false; bk_ok := bk_ok b |}
       | RSUnknownPut =>
-          {| bk_dealt := alloc; bk_unres := pop_head (bk_unres b) ++ [alloc]; bk_parked := false; bk_ok := bk_ok b |}
+          (* the node stays, and the event of the attempt is queued behind it *)
+          {| bk_dealt := alloc; bk_unres := bk_unres b ++ [alloc]; bk_parked := false; bk_ok := bk_ok b |}
       | RSUnnecessary =>
           {| bk_dealt := bk_dealt b; bk_unres := pop_head (bk_unres b); bk_parked := false; bk_ok := bk_ok b |}
       | _ => b
@@ -369,22 +375,6 @@ Fixpoint increasing (l : list N) : bool :=
   | _ => true
   end.
 
-(* signatures of the known findings (known_findings.d/C09.json) *)
-Definition sig_F1 (c : c09_case) : bool :=   (* a repair write failed without effect, not by a compare failure, and its node was dropped *)
-  existsb (fun x : dstep * obs =>
-             let '(d, o) := x in
-             match d, o_d o with
-             | (DRetry e _ | DRetryFinish e), ORetry (RSFailedPut | RSUnknownPut) => negb (env_effective e)
-             | _, _ => false
-             end) (combine (c_script c) (c_obs c)).
-Definition sig_F2 (c : c09_case) : bool :=   (* an unknown-outcome write of an empty value *)
-  existsb (fun x : dstep * obs =>
-             let '(d, o) := x in
-             match d, o_d o with
-             | DWrite op _ _ _, OResp _ true => match op_value op with Some [] => true | _ => false end
-             | _, _ => false
-             end) (combine (c_script c) (c_obs c)).
-
 Definition conv_of (c : c09_case) : cstate :=
   fold_left (conv_step (rev (map ev_of_obs (c_events c)))) (combine (c_script c) (c_obs c))
             {| cs_book := {| bk_dealt := r0; bk_unres := []; bk_parked := false; bk_ok := true |};
@@ -398,7 +388,4 @@ Definition c09_oracle (c : c09_case) : option N :=
            && increasing (map (fun e : evobs => let '(_, _, _, r, _) := e in r) (c_events c))) then Some 0 else
   let cs := conv_of c in
   if negb (cs_probe_ok cs) then Some 0 else
-  if cs_conv cs then None
-  else if sig_F1 c then Some 1
-  else if sig_F2 c then Some 2
-  else Some 0.
+  if cs_conv cs then None else Some 0.
